@@ -80,8 +80,11 @@ def r20_1(ctx):
     # the per-segment helper when there is one; otherwise the same facts are observed on path_jordan applied to a
     # one-segment curve (the helper may have been merged into the loop of its callers)
     fn = ctx.fn("plot.patch_segment" if per_segment else "plot.path_jordan")
-    for d in (1, 2, 3, 4):
+    for d, closed in ((1, False), (2, False), (3, False), (4, False), (2, True), (3, True)):
         s = seg("s", d)
+        if closed:
+            # a piece that ends where it starts (a closed curve made of one or two arcs): it is not a zero-length piece
+            s = Obj("s_closed", degree=d, ctrlpoints=tuple(s.ctrlpoints[:-1]) + (s.ctrlpoints[0],))
         path = PathNS()
         try:
             if per_segment:
@@ -105,10 +108,11 @@ def r20_1(ctx):
                 continue
             verts, codes = got
             ok = [tuple(v) for v in verts] == [tuple(v) for v in s.ctrlpoints[1:]] and [c.name for c in codes] == [want_code[d]] * d
+            label = f"degree {d}" + (" (end point = start point)" if closed else "")
             if ok:
-                out.ok(fn.qname, f"degree {d} -> {d} x {want_code[d]}", where=fn.where())
+                out.ok(fn.qname, f"{label} -> {d} x {want_code[d]}", where=fn.where())
             elif len(verts) == 0:
-                out.bad(fn.qname, f"degree {d} falls through without vertices", where=fn.where(),
+                out.bad(fn.qname, f"{label} falls through without vertices", where=fn.where(),
                         detail="the segment is silently dropped from the drawn boundary")
             else:
                 out.bad(fn.qname, f"degree {d}: vertices / codes do not retrace the segment", where=fn.where(),
